@@ -7,3 +7,5 @@ package client
 func verifPoint(string, int64, int64) {}
 
 func verifGate(string, int64) {}
+
+func verifGateReq(string, *inFlightRequest) {}
